@@ -726,7 +726,11 @@ fn touch(rng: &mut Rng, b: &mut Build, keys: &[&str], k: &str, cfg: &GenCfg, sav
     // about, a second didOpen for an open one), and so are no-op notifications in between
     let is_open = b.open.contains_key(&path);
     let unusual = rng.chance(1, 10);
-    if is_open != unusual {
+    if is_open && rng.chance(1, 12) {
+        // one notification with two full-text changes: the second one is the document's text
+        let first = b.open[&path].replace("class", "class ");
+        b.ops.push(Op::Change2 { path: path.clone(), first, text: text.clone() });
+    } else if is_open != unusual {
         b.ops.push(Op::Change { path: path.clone(), text: text.clone() });
     } else {
         b.ops.push(Op::Open { path: path.clone(), text: text.clone() });
